@@ -21,7 +21,8 @@ def cases(rng, tier):
         if two: a += ['-twopl', '-t2', str(rng.choice([0.0, 0.4, 1.0]))]
         if mp == 'spa':
             luq = rng.randint(1, 5); lt = rng.randint(0, luq)
-            a += ['-n3', str(n3), '-luq', str(luq), '-lt', str(lt), '-llq', str(rng.randint(0, min(lt, 1)))]
+            a += ['-n3', str(n3), '-luq', str(luq)]
+            if rng.random() < 0.7: a += ['-lt', str(lt), '-llq', str(rng.randint(0, min(lt, 1)))]      # both are optional (defaults 0)
         crits = LP.rand_case(rng, ncrit=(0, 2))['crits']
         yield 'pipeline', dict(argv=a, mp=mp, two=two, seed=rng.randint(0, 10 ** 6), crits=crits, pc=rng.random() < 0.3, stab=two and rng.random() < 0.5)
 
